@@ -11,6 +11,9 @@ CHECKS = {
     **{f"C03:numpy-{K}": (lambda K=K: H.chk_numpy(K, exclude_kids=("Count", "CountT", "CountTC") if K in ("UntypedLabel", "Branch") else ())) for K in H.CLASSES},
     "C03:numpy-UntypedLabel-count-first": lambda: H.chk_numpy("UntypedLabel", only_kids=("Count", "CountT", "CountTC")),
     "C03:numpy-Branch-count-first": lambda: H.chk_numpy("Branch", only_kids=("Count", "CountT", "CountTC")),
+    **{f"C03:edges-{K}": (lambda K=K: H.chk_numpy_edges(K)) for K in ("Bin", "SparselyBin", "CentrallyBin", "IrregularlyBin", "Stack")},
+    **{f"C05:edges-{K}": (lambda K=K: H.chk_numpy_edges(K, sums=True)) for K in ("Bin", "SparselyBin", "CentrallyBin", "IrregularlyBin", "Stack")},
+    "C10:Stack.nan-thresholds": lambda: H.chk_stack_nan_thresholds(),
     "C11:pickle": lambda: H.chk_pickle(),
     "C16:sharing": lambda: H.chk_sharing(),
     "C06:Bag.json": lambda: H.chk_tojson_frame("Bag"),
